@@ -19,17 +19,23 @@ def checkpoints(n, dense_limit=64):
     return sorted(pts)
 
 
-def prefix_case(cid, typ, xs, dense_limit=64, meta=None, how='add', weights=None, final_only=False):
+TRAIT_ADD = ('Mean', 'Variance', 'MeanWithError', 'Skewness', 'Kurtosis')
+
+
+def prefix_case(cid, typ, xs, dense_limit=64, meta=None, how='add', weights=None, final_only=False, via_trait=False):
     """N 0; A ...; O 0 at every checkpoint.  Returns (case, [(op index, prefix length)]).
     weights: for 2-ary estimators, the second component of each pair."""
     c = Case(cid, typ, meta=meta or {})
+    if via_trait and typ in TRAIT_ADD:
+        c.meta['add'] = 'through the Estimate trait'
     c.op('N', 0)
     pts = [len(xs)] if final_only else checkpoints(len(xs), dense_limit)
     marks = []
     prev = 0
     for k in pts:
         if weights is None:
-            c.op('A', 0, xs[prev:k])
+            # via_trait: Estimate::add reached through the trait (op AT) instead of method syntax on the concrete type
+            c.op('AT' if (via_trait and typ in TRAIT_ADD) else 'A', 0, xs[prev:k])
         else:
             inter = []
             for x, w in zip(xs[prev:k], weights[prev:k]):
